@@ -82,28 +82,22 @@ theorem intervals_sound (L : List (Int × Int)) (d d' : Int)
       rw [if_neg hd']
       exact ih (fun x hx => hwf x (by simp [hx])) h2
 
-/-- the intervals built by `intervals_from_bounds` are not inverted, except those ending at `DATE_END`
-and the `(DATE_START, end)` intervals of leftover ends -/
+/-- the intervals built by `intervals_from_bounds` are not inverted, except those ending at `DATE_END` -/
 theorem intervalsGo_wf (ss es : List Int) :
-    ∀ r ∈ intervalsGo ss es, r.1 ≤ r.2 ∨ r.2 = dateEnd ∨ r.1 = dateStart := by
+    ∀ r ∈ intervalsGo ss es, r.1 ≤ r.2 ∨ r.2 = dateEnd := by
   fun_induction intervalsGo ss es with
   | case1 => simp
-  | case2 e es ih =>
+  | case2 s ss es hdw ih =>
     intro r hr
     rcases List.mem_cons.1 hr with rfl | hr
-    · right; right; rfl
+    · right; rfl
     · exact ih r hr
-  | case3 s ss es hdw ih =>
-    intro r hr
-    rcases List.mem_cons.1 hr with rfl | hr
-    · right; left; rfl
-    · exact ih r hr
-  | case4 s ss es e et hdw hse ih =>
+  | case3 s ss es e et hdw hse ih =>
     intro r hr
     rcases List.mem_cons.1 hr with rfl | hr
     · left; exact dropWhile_head_ge s es e et hdw
     · exact ih r hr
-  | case5 s ss es e et hdw hse ih =>
+  | case4 s ss es e et hdw hse ih =>
     intro r hr
     rcases List.mem_cons.1 hr with rfl | hr
     · left; exact dropWhile_head_ge s es e et hdw
@@ -116,8 +110,7 @@ theorem nextChange_le (ss es : List Int) (d : Int) (hdd : d < dateEnd) (hs : ss.
     nextChangeFromIntervals d (intervalsGo ss es) ≤ max s' (e' + 1) := by
   fun_induction intervalsGo ss es with
   | case1 => simp at hs'
-  | case2 e es ih => simp at hs'
-  | case3 s ss es hdw ih =>
+  | case2 s ss es hdw ih =>
     -- every end lies before `s`: then `e'` does, and `d < s`
     have := mem_dropWhile_or s es e' he'
     rw [hdw] at this
@@ -129,7 +122,7 @@ theorem nextChange_le (ss es : List Int) (d : Int) (hdd : d < dateEnd) (hs : ss.
     rcases List.mem_cons.1 hs' with rfl | h
     · omega
     · have := hs.1 s' h; omega
-  | case4 s ss es e et hdw hse ih =>
+  | case3 s ss es e et hdw hse ih =>
     have hge := dropWhile_head_ge s es e et hdw
     have hmem := mem_dropWhile_or s es
     have hpw : (e :: et).Pairwise (· < ·) := hdw ▸ he.sublist (List.dropWhile_sublist _)
@@ -162,7 +155,7 @@ theorem nextChange_le (ss es : List Int) (d : Int) (hdd : d < dateEnd) (hs : ss.
           · exact h
         · omega
       exact ih hs.2 hpw.2 hs'' he''
-  | case5 s ss es e et hdw hse ih =>
+  | case4 s ss es e et hdw hse ih =>
     have hge := dropWhile_head_ge s es e et hdw
     have hmem := mem_dropWhile_or s es
     have hpw : (e :: et).Pairwise (· < ·) := hdw ▸ he.sublist (List.dropWhile_sublist _)
@@ -320,10 +313,9 @@ theorem dated_yearless_hintOK (s : DateSpec) (so : DateOffset) (e : DateSpec) (e
   apply intervals_sound _ d d' ?_ a b c
   intro r hr
   rw [intervalsFromBounds] at hr
-  rcases intervalsGo_wf _ _ r hr with h | h | h
+  rcases intervalsGo_wf _ _ r hr with h | h
   · exact Or.inl h
   · exact Or.inr (Or.inl (by omega))
-  · exact Or.inr (Or.inr (by omega))
 
 /-! ### S2: the single-day path without a year -/
 
@@ -376,7 +368,7 @@ theorem sd_contains_spec (m dd : Nat) (so eo : DateOffset)
     (x : Int) (k f : Int) (hk : 0 ≤ k ∧ k ≤ 20000) (hf : ofYmd? k m dd = some f)
     (h1 : shift so f ≤ x) (h2 : x ≤ shift eo f) :
     datedOk (.fixed none m dd) so (.fixed none m dd) eo x = true := by
-  have hwdef : yearSpan so eo = 3 + (so.days.natAbs + eo.days.natAbs) / 365 := rfl
+  have hwdef : yearSpan so eo = 3 + (so.days.natAbs + eo.days.natAbs) / 365 := yearSpan_small so eo hss hes
   have F := sdFacts m dd so eo hss hes
   obtain ⟨_, _, _, p1, p2⟩ := day_pos hf
   have sb := F.sb k f hk.1 hk.2 hf
